@@ -45,3 +45,35 @@ TEXT.update({
 })
 for _p in list(NOT_YET):
     if _p in TEXT: del NOT_YET[_p]
+
+DIR_NOTE = ("trusted: Coq kernel; the harness (in-memory Filesystem with a logical clock and fault injection, projection of files to observables with crypto/x509 and encoding/pem); "
+            "the abstract directory model (aliases, key identities, hash pre-images, modification-time order) is tied to the code by lockstep comparison after every step of random histories; "
+            "there is no formal refinement between the byte level and the abstract level beyond shared definitions")
+TEXT.update({
+ "C01": {"technique": "Coq proof over the directory model (every regenerated entity chains to its issuer's current certificate, by the BFS-order invariant; hashed AKI = issuer's hashed SKI) + lockstep histories and stdlib signature verification",
+         "level": "Theorems C01_regenerated_entities_chain (all directories, all strategies) and C01_aki_is_ski. Tie: after every run of random histories the chain flag (signature under the issuer's current certificate, issuer DN bytes = subject DN bytes, "
+                  "checked with crypto/x509) is compared with the model and rule 1 is evaluated on the implementation's files; the certificate stream verifies signatures for all key / signature algorithm pairs with the standard library and compares SHA-1 key identifiers.",
+         "note": DIR_NOTE + "; signature arithmetic is an oracle; known finding F19 (issuer DN re-encoded for imported issuers with foreign string types) is recorded in known_findings.json"},
+ "C10": {"technique": "Coq proof (idempotence of every non-generate-all strategy from every directory state under the clock hypothesis; no consent, no change) + lockstep histories with repeated runs and write-set checks",
+         "level": "Theorems C10_rerun_is_noop and C10_no_consent_no_change for all directory states. Tie: random histories in which successful runs are repeated with the same flags; the harness file system records every write and compares all other files before/after; "
+                  "rule 2 is evaluated on the implementation's observations.", "note": DIR_NOTE + "; the CLI prompt is modelled (Cli.v) and proved, the binary itself is exercised only by the C20/C10 CLI smoke cases"},
+ "C12": {"technique": "Coq proof by invariant over histories (DirInv preserved by every admissible user operation and every run, default run reaches the goal state) + lockstep histories",
+         "level": "Theorems C12_history_invariant / C12_history_converges: for every history of admissible operations and (possibly failing) runs, a successful default run leaves every entity with certificate and key material, hashed certificates reflecting the current configuration and chaining; the next run is a no-op. "
+                  "Tie: lockstep comparison of random histories (edits, touches, deletions, tears, requests, user-supplied artifacts, runs under 12 strategies) and rule 3 on the implementation's files.", "note": DIR_NOTE},
+ "C13": {"technique": "Coq proof (equal hash pre-images imply equal certificate-relevant content; pre-image independent of alias, profile name and run-relative times) + differential comparison of configuration pairs through the real HashSum",
+         "level": "Theorems C13_hash_sensitive, C13_hash_ignores_alias_profile, C13_hash_ignores_relative_times for all contents. Tie: for every generated pair (irrelevant difference or single certificate-changing edit) the model's pre-image equality must equal the equality of the real SHA-1 sums, "
+                  "and the generator's own labelling gives the stability / sensitivity verdict; dirrun adds 'second run finds nothing changed'.", "note": "trusted: Coq kernel, harness; SHA-1 and encoding/json are not modelled (pre-image = structured value)"},
+ "C14": {"technique": "Coq proof over the directory model (existing key / key-less request kept by every run, new certificate carries its public key) + PKCS#8 round-trip proofs + lockstep histories with key-identity flags",
+         "level": "Theorems C14_key_kept, C14_request_kept, C14_pkcs8_*_roundtrip. Tie: lockstep histories compare 'same key as before', 'same request as before', 'certificate matches key / request' after every step (RSA and EC keys, user-supplied keys and requests, trailing bytes in artifact files); rule 4 on the implementation's files.", "note": DIR_NOTE},
+ "C15": {"technique": "Coq proof (any write fault preserves DirInv; write error never reported as success; on a generable hierarchy crash -> default run succeeds and is good -> next run is a no-op; torn files read as complete blocks) + lockstep histories with injected faults",
+         "level": "Theorems C15_faulty_run_preserves_invariant, C15_write_error_reported, C15_crash_then_recover_then_noop and the byte-level C15_torn_* theorems. Tie: 45% of the runs of the fault stream fail their k-th WriteFile (error / any block subset then death / complete then death); "
+                  "results, writes and all flags of the faulty run and of the recovery runs are compared with the model; rules 3 and 5 on the implementation's files; the pem stream checks truncation at every offset against the model's pem.Decode.", "note": DIR_NOTE + "; os.WriteFile semantics of a real disk are out of scope"},
+ "C17": {"technique": "Coq proofs (PKCS#8 round trip for every scalar on all ten curves and every RSA key; PEM file of any block list reads back as exactly those blocks) + byte-exact differential correspondence of writer, parser and PEM reader, stdlib interop",
+         "level": "Theorems C17_pkcs8_ec_roundtrip, C17_pkcs8_rsa_roundtrip, C17_pem_file_roundtrip, C17_pem_plain_roundtrip. Tie: gopki's PKCS#8 bytes must equal the model's, gopki's parser and the model's must classify hand-assembled, truncated and bit-flipped encodings alike, "
+                  "crypto/x509 must accept gopki's output and vice versa (RSA, NIST curves); the model's pem.Decode is compared with Go's on >700 hostile files.", "note": "trusted: Coq kernel, harness; curve arithmetic is an oracle; acceptance by crypto/x509 is differential evidence only (partial)"},
+ "C20": {"technique": "Coq proofs for the glue where panics originated (stored-hash slicing, custom OID conversion, consent path; issuer-without-certificate is an error result in the run model) + model-checked hostile-value stream + recover()-guarded mutation streams",
+         "level": "Theorems C20_stored_hash_never_panics, C20_custom_oid_never_panics, C20_no_consent_no_change. Tie: hostile values in every slot of parsing configurations go through the byte-level model (certificate or error must be predicted alike), the stored-hash scanner is compared with the model on thousands of marker arrangements, "
+                  "corpus mutations and all artifact-block x strategy combinations run under recover(); panics in fault histories are a compared result code.", "note": "trusted: Coq kernel, harness; partial: YAML, JSON-schema, encoding/asn1 and encoding/pem are third-party / stdlib code whose freedom from panics is explored, not proved"},
+})
+for _p in list(NOT_YET):
+    if _p in TEXT: del NOT_YET[_p]
